@@ -854,6 +854,79 @@ theorem int_invariants {n v : Nat} (hn : n ≠ 0) (hv : v < B ^ n) :
   generalize B ^ n = K at *
   omega
 
+/-! ## coverage round — observers (`AsRef<T>`, `AsRef<[Limb]>`, `Serialize`) and the serde round trip -/
+
+/-- `Deserialize for NonZero<T>` in one formula: the frame reader's outcome, with zero turned into an error
+    (an encoding of zero NEVER produces the wrapper) -/
+theorem nzDeser_exact (n : Nat) (bs : List Nat) :
+    nzDeser n bs = (match bincodeArray n bs with
+      | .ok a => if val a = 0 then .err "zero" else .ok a
+      | r => r) := by
+  unfold nzDeser
+  cases ha : bincodeArray n bs with
+  | ok a =>
+    have ⟨hw, _⟩ := bincodeArray_ok ha
+    simp only [uintIsZero_spec hw, mask_eq_WMAX, decide_eq_true_eq]
+  | none => rfl
+  | panic => rfl
+  | err e => rfl
+
+/-- `Deserialize for Odd<T>`: an encoding of an even value (zero included) NEVER produces the wrapper -/
+theorem oddDeser_exact (n : Nat) (bs : List Nat) :
+    oddDeser n bs = (match bincodeArray n bs with
+      | .ok a => if val a % 2 = 1 then .ok a else .err "even"
+      | r => r) := by
+  unfold oddDeser
+  cases ha : bincodeArray n bs with
+  | ok a =>
+    simp only [oddNew_spec]
+    by_cases ho : val a % 2 = 1 <;> simp [ho]
+  | none => rfl
+  | panic => rfl
+  | err e => rfl
+
+/-- `Serialize for NonZero<T>` / `Odd<T>` writes the documented layout: the `u64` little-endian byte count, then
+    byte `i` = `value / 256^i % 256` -/
+theorem wrapSer_layout (a : List Nat) :
+    wrapSer a = .ok (((List.range 8).map fun i => 8 * a.length / 256 ^ i % 256) ++
+      ((List.range (8 * a.length)).map fun i => val a / 256 ^ i % 256)) := by
+  unfold wrapSer bincodeFrame
+  rw [leBytesOf_eq_range, leBytesOf_eq_range]
+
+/-- decode ∘ encode = id on `NonZero<Uint>`: the serialised form of a valid wrapper deserialises to it -/
+theorem nzSer_roundtrip {a : List Nat} (hw : WF a) (hn : 8 * a.length < B) (hz : val a ≠ 0) :
+    ∃ bs, wrapSer a = .ok bs ∧ nzDeser a.length bs = .ok a := by
+  refine ⟨bincodeFrame a, rfl, ?_⟩
+  rw [nzDeser_exact, bincodeArray_frame hw hn]
+  simp only [if_neg hz]
+
+/-- decode ∘ encode = id on `Odd<Uint>` -/
+theorem oddSer_roundtrip {a : List Nat} (hw : WF a) (hn : 8 * a.length < B) (ho : val a % 2 = 1) :
+    ∃ bs, wrapSer a = .ok bs ∧ oddDeser a.length bs = .ok a := by
+  refine ⟨bincodeFrame a, rfl, ?_⟩
+  rw [oddDeser_exact, bincodeArray_frame hw hn]
+  simp only [if_pos ho]
+
+/-- the same for `NonZero<Limb>` (8 little-endian bytes) -/
+theorem nzLimbSer_roundtrip {x : Nat} (hx : x < B) (hz : x ≠ 0) :
+    ∃ bs, wrapLimbSer x = .ok bs ∧ nzLimbDeser bs = .ok x ∧
+      bs = (List.range 8).map fun i => x / 256 ^ i % 256 := by
+  refine ⟨leBytesOf 8 x, rfl, ?_, leBytesOf_eq_range 8 x⟩
+  have hl : (leBytesOf 8 x).length = 8 := leBytesOf_length 8 x
+  unfold nzLimbDeser
+  rw [if_neg (by omega)]
+  have hv : leVal ((leBytesOf 8 x).take 8) = x := by
+    rw [List.take_of_length_le (by omega), leVal_leBytesOf]
+    exact Nat.mod_eq_of_lt hx
+  simp only [hv, limbIsZero_spec hx, mask_eq_WMAX, decide_eq_true_eq, if_neg hz]
+
+/-- the observers hand out the wrapped value unchanged, so what they expose satisfies the invariant whenever the
+    wrapper does (`AsRef<T>`, `AsRef<[Limb]>`) -/
+theorem observers_same {k : Kind} {a : List Nat} (h : Inv k a) :
+    wrapAsRef a = .ok a ∧ oddAsRefLimbs a = .ok a ∧ (∀ v, wrapAsRef a = .ok v → Inv k v) := by
+  refine ⟨rfl, rfl, fun v hv => ?_⟩
+  injection hv with hv; subst hv; exact h
+
 /-! ## non-vacuity: each family of hypotheses is satisfied by a concrete non-trivial input -/
 
 example : nzNew [0, 5] = .ok [0, 5] ∧ nzNew [0, 0] = .none := by constructor <;> decide
@@ -867,5 +940,9 @@ example : nzIntAbsSign [18446744073709551615] = .ok ([1], WMAX) := by decide
 example : Produced .nz [0, 5] :=
   Produced.nzNew (WF_cons.mpr ⟨by decide, WF_cons.mpr ⟨by decide, WF_nil⟩⟩) (by decide : nzNew [0, 5] = .ok [0, 5])
 example : oddFromBeHex 1 [48, 48, 48, 48, 48, 48, 48, 48, 48, 48, 48, 48, 48, 48, 70, 102] = .ok [255] := by decide
+-- coverage round
+example : wrapSer [7] = .ok [8, 0, 0, 0, 0, 0, 0, 0, 7, 0, 0, 0, 0, 0, 0, 0] := by decide
+example : oddDeser 1 [8, 0, 0, 0, 0, 0, 0, 0, 6, 0, 0, 0, 0, 0, 0, 0] = .err "even" := by decide
+example : nzDeser 2 (bincodeFrame [0, 5]) = .ok [0, 5] := by decide
 
 end CB.P12
